@@ -22,6 +22,7 @@ RULE = (
     "intersection and the union of the replaced whitespace's cells; no line longer than columns or starting/ending with "
     "whitespace; text without words -> any result without characters, no exception. Non-trivial: >=2 lines with a joined pair, a "
     "word longer than columns, or whitespace with mixed formatting."
+    ' Inputs also carry a history (derived from observed parents, divides index filled), words may contain double-width, combining and control characters (length counts characters), texts go up to 300 characters and columns up to 100.'
 )
 ASSUMPTIONS = [
     "whitespace = str.isspace, which agrees with re's \\s on every code point (checked over all of Unicode at start of the run)",
